@@ -427,6 +427,26 @@ def stream_covers(ctx, leaves):
             ctx.traces_validated += 1
 
 
+def stream_boxform(ctx, boxes):
+    """the conic form (A, b, K) the real SigDomain of a non-degenerate box compiles to vs the model's `Domain.boxRowsF`, which
+    `Props/C06Complete.boxRows_get` identifies with the `boxA`, `boxb` of the completeness theorem `box_exact`"""
+    def impl(case):
+        X = rm.build_sig_domain(case['n'], case['box'])
+        A = X.A.toarray() if hasattr(X.A, 'toarray') else np.asarray(X.A)
+        if A.shape[1] != case['n'] or any(co.type != '+' for co in X.K):
+            return {'raises': 'not a plain box form: cols %d cones %s' % (A.shape[1], [(co.type, co.len) for co in X.K])}
+        return {'A': [[frac_str(F(float(v))) for v in row] for row in A], 'b': [frac_str(F(float(v))) for v in X.b]}
+
+    cases = [{'n': leaf['n'], 'box': box} for leaf, box in boxes if set(box.keys()) == {'lo', 'hi'}]
+    seen, uniq = set(), []
+    for c in cases:
+        k = common.canon_json(c)
+        if k not in seen:
+            seen.add(k)
+            uniq.append(c)
+    common.correspond(ctx, 'boxform', uniq, impl, lambda c: {'op': 'domain.box_rows', 'lo': c['box']['lo'], 'hi': c['box']['hi']})
+
+
 def stream_monotone(ctx, rng, N):
     for _ in range(N):
         leaf = rm.gen_sig(rng, n=rng.randint(1, 2), m=rng.randint(3, 4))
@@ -489,6 +509,7 @@ def run(ctx):
     extra = [gen_one_negative(rng) for _ in range(250 if quick else 2000)]
     before = len(ctx.disagreements)
     stream_covers(ctx, leaves + boxes + extra)
+    stream_boxform(ctx, boxes + extra)
     for d in ctx.disagreements[before:before + 12]:
         leaf, box = d['case']['leaf'], d['case']['box']
         if box is None:
